@@ -22,15 +22,15 @@ TRUST = ('Trusted base: CPython ast module as the reader of /repo; the '
 CLAIMED = {
     'C01': dict(
         technique='typestate/dominance on per-function CFGs; producer/consumer key-set inclusion over the AST; format-constant agreement; SQL-token check of emitted templates',
-        text='Structural necessary conditions only, not the multiset equality itself: (R1) on every path to RuleStructure.AsSql in SingleRuleSql/FunctionSql the structure went through ExtractRuleStructure -> RunInjections -> ElliminateInternalVariables(full) -> UnificationsToConstraints, and injected structures are eliminated before InjectStructure; (R2) every expression/literal/proposition kind the parser can build has a consumer branch; (R3) every site naming a positional column uses col<N> and every writer of the functional value uses logica_value; (R4) rules of one predicate are joined by UNION ALL without DISTINCT and GROUP BY is emitted only for distinct_vars. Breaking any of them changes rows or makes compilation fail for whole classes of programs; the checks see every branch of every function on every run, which no finite set of goldens does. Added after the seeded-change rounds: (R5) multiplicities - conjunction of DNFs is a product, disjunction a concatenation, every rewritten functional call gets its own conjunct, injection merges every component, WHERE is the AND of all constraints; (R6) the SQL of an infix operator and of a combine is one parenthesised group on every path out of ConvertToSql (abstract interpretation with string skeletons). (R7) no method of QL reachable from ConvertToSql stores into the expression tree it is given (sharing-level analysis: the same expression object stands at every use of a variable). Every rule body goes through PropositionToDNF; an inclusion is an unnesting on every path.',
+        text='Structural necessary conditions only, not the multiset equality itself: (R1) on every path to RuleStructure.AsSql in SingleRuleSql/FunctionSql the structure went through ExtractRuleStructure -> RunInjections -> ElliminateInternalVariables(full) -> UnificationsToConstraints, and injected structures are eliminated before InjectStructure; (R2) every expression/literal/proposition kind the parser can build has a consumer branch; (R3) every site naming a positional column uses col<N> and every writer of the functional value uses logica_value; (R4) rules of one predicate are joined by UNION ALL without DISTINCT and GROUP BY is emitted only for distinct_vars. Breaking any of them changes rows or makes compilation fail for whole classes of programs; the checks see every branch of every function on every run, which no finite set of goldens does. Added after the seeded-change rounds: (R5) multiplicities - conjunction of DNFs is a product, disjunction a concatenation, every rewritten functional call gets its own conjunct, injection merges every component, WHERE is the AND of all constraints; (R6) the SQL of an infix operator and of a combine is one parenthesised group on every path out of ConvertToSql (abstract interpretation with string skeletons). (R7) no method of QL reachable from ConvertToSql stores into the expression tree it is given (sharing-level analysis: the same expression object stands at every use of a variable). Every rule body goes through PropositionToDNF; an inclusion is an unnesting on every path. (R8) the infix splitter tries looser operators first, `+` before `-`, `*` before `/`, and an operator that contains another one before it.',
         ref='3/C01'),
     'C05': dict(
         technique='post-dominance / guarded-by on CFGs, abstract interpretation of CheckForError, parser-key vs visitor-key inclusion, call-graph reachability of constraint generators',
-        text='Structural necessary conditions only, not soundness of inference: (R1) in RunTypechecker and SingleRuleSql inference is always followed by the error search in raise mode over the same rules before AsSql, and CheckForError(raise) raises TypeErrorCaughtException whenever an error was found (all paths, abstract interpretation); (R2) every key under which the parser stores a sub-expression is visited by ExpressionsIterator and every Act* constraint generator is reachable from the inference passes; (R3) whole-program and per-structure checking are gated by the same ShouldTypecheck(); (R4) pod literals get Num/Str/Bool. (R5) dependencies of a predicate accumulate over all its rules and rules are inferred in dependency order; (R6) closing a record literal redirects the end of the reference chain and happens after its fields are unified. (R7) combine scoping of type variables: the scope is snapshotted after its own variables were registered and a fresh copy of the snapshot is restored after every nested combine. Two unified lists both receive the unified element references.',
+        text='Structural necessary conditions only, not soundness of inference: (R1) in RunTypechecker and SingleRuleSql inference is always followed by the error search in raise mode over the same rules before AsSql, and CheckForError(raise) raises TypeErrorCaughtException whenever an error was found (all paths, abstract interpretation); (R2) every key under which the parser stores a sub-expression is visited by ExpressionsIterator and every Act* constraint generator is reachable from the inference passes; (R3) whole-program and per-structure checking are gated by the same ShouldTypecheck(); (R4) pod literals get Num/Str/Bool. (R5) dependencies of a predicate accumulate over all its rules and rules are inferred in dependency order; (R6) closing a record literal redirects the end of the reference chain and happens after its fields are unified. (R7) combine scoping of type variables: the scope is snapshotted after its own variables were registered and a fresh copy of the snapshot is restored after every nested combine. Two unified lists both receive the unified element references. A list literal is typed as a list even without elements.',
         ref='3/C05'),
     'C09': dict(
         technique='interface conformance over the class hierarchy (signature vs every call site), format-string parsing of every template table entry with arity from abstract interpretation of BuiltInFunctionArityRange, CFG dominance for placeholder handling and WITH ordering',
-        text='Four of the five clauses, structurally: (R1) every method the pipeline invokes on a dialect object, with the argument shape of each call site, is accepted by each of the eight dialect classes; (R2) every function/infix/unnest/array/analytic template formats without ValueError/KeyError/IndexError for every admissible argument count and has an arity source; (R4) UNUSED entries are handled before the generic loop, the DUMMY() UDF bootstrap is overwritten, the nil marker is a SQL comment and filtered; (R5) a WITH dependency is appended after its own dependencies were compiled, once, and emitted in recorded order. Alias scoping (alias.column refers to an enclosing FROM) is run-time data of RuleStructure and is NOT decided; bracket/quote balance of emitted text is added by C09-R3 when the template-skeleton engine is built. (R3) every maximal string-building expression of the emitters and every template has balanced brackets and closed quotes with holes as atoms; the application style (positional vs named) of each template table matches its call site; (R5 also) compile-per-parent WITH recording. R1 respects Name() guards of dialect-specific calls; R3 also requires every string literal to be one closed literal of the dialect (the exhaustive check of C10-R1). SortUnnestings counts variables inside combines among the dependencies of an unnesting.',
+        text='Four of the five clauses, structurally: (R1) every method the pipeline invokes on a dialect object, with the argument shape of each call site, is accepted by each of the eight dialect classes; (R2) every function/infix/unnest/array/analytic template formats without ValueError/KeyError/IndexError for every admissible argument count and has an arity source; (R4) UNUSED entries are handled before the generic loop, the DUMMY() UDF bootstrap is overwritten, the nil marker is a SQL comment and filtered; (R5) a WITH dependency is appended after its own dependencies were compiled, once, and emitted in recorded order. Alias scoping (alias.column refers to an enclosing FROM) is run-time data of RuleStructure and is NOT decided; bracket/quote balance of emitted text is added by C09-R3 when the template-skeleton engine is built. (R3) every maximal string-building expression of the emitters and every template has balanced brackets and closed quotes with holes as atoms; the application style (positional vs named) of each template table matches its call site; (R5 also) compile-per-parent WITH recording. R1 respects Name() guards of dialect-specific calls; R3 also requires every string literal to be one closed literal of the dialect (the exhaustive check of C10-R1). SortUnnestings counts variables inside combines among the dependencies of an unnesting. TranslateRule never returns SQL remembered from a call with another enclosing vocabulary.',
         ref='3/C09'),
     'C13': dict(
         technique='inter-procedural set-order taint analysis (kinds, effect summaries, return/parameter/attribute flow to a fixpoint) with premise-checked exemptions; global-state inventory with data/control dependence and all-paths re-establishment on the CFG; nondeterminism-source confinement; deep-copy provenance',
@@ -38,45 +38,45 @@ CLAIMED = {
         ref='3/C13'),
     'C14': dict(
         technique='dominance / must-pass-through on CFGs of the edge-recording and queue-owning functions; ownership scan of the action queue; direction agreement between edge writer and reader',
-        text='Three structural clauses, not schedule correctness for every graph: (R1) every read of a grounded or external table records the edge (table, reader-on-top-of-stack) before any return, only the iteration closure suppresses edges, and the executor reads the tuple in the same direction; (R2) push/pop of the workflow stack bracket the recursive compilation, SortActions schedules an action only when its requirements are complete; (R3) an iterated action is re-queued only after its counter was incremented and found below the declared repetitions and without stop signal, only three methods touch the queue, only iterated actions are re-queued, the head is dequeued before it runs. Renaming a predicate renames both ends of its dependency edges; the iterations table is owned by the program object and Iterations() hands out fresh data. A re-queued action is placed behind the queued members of its own iteration only.',
+        text='Three structural clauses, not schedule correctness for every graph: (R1) every read of a grounded or external table records the edge (table, reader-on-top-of-stack) before any return, only the iteration closure suppresses edges, and the executor reads the tuple in the same direction; (R2) push/pop of the workflow stack bracket the recursive compilation, SortActions schedules an action only when its requirements are complete; (R3) an iterated action is re-queued only after its counter was incremented and found below the declared repetitions and without stop signal, only three methods touch the queue, only iterated actions are re-queued, the head is dequeued before it runs. Renaming a predicate renames both ends of its dependency edges; the iterations table is owned by the program object and Iterations() hands out fresh data. A re-queued action is placed behind the queued members of its own iteration only. No set iteration order reaches the schedule SortActions returns (set-order analysis of concertina_lib).',
         ref='3/C14'),
     'C18': dict(
         technique='abstract interpretation of OkInjection / LimitClause under annotation scenarios (present, absent, zero); control dependence of InjectStructure on OkInjection; return-expression composition in PredicateSql; producer/consumer table agreement for denotations',
-        text='Structural clauses, not the row order SQLite returns: (R1) OkInjection is false on every path when @OrderBy or @Limit is present and every InjectStructure is control dependent on it; (R2) every non-raising return of PredicateSql carries body + OrderByClause(name) + LimitClause(name) in that order and all nested uses compile through PredicateSql; (R3) an arbitrary int limit including 0 still blocks injection and emits LIMIT, absence emits nothing; (R4) denotation keys written by ParseRule are the keys read by AnnotationsFromDenotations and map to registered annotations read by OrderBy()/LimitOf(). OkInjection is asked about the predicate whose rules are injected; denotations become annotations before the parser rewrites that duplicate rules. Annotations inherited by functor clones are read from state recomputed after every application. Positional annotation arguments are taken in numeric order of their position.',
+        text='Structural clauses, not the row order SQLite returns: (R1) OkInjection is false on every path when @OrderBy or @Limit is present and every InjectStructure is control dependent on it; (R2) every non-raising return of PredicateSql carries body + OrderByClause(name) + LimitClause(name) in that order and all nested uses compile through PredicateSql; (R3) an arbitrary int limit including 0 still blocks injection and emits LIMIT, absence emits nothing; (R4) denotation keys written by ParseRule are the keys read by AnnotationsFromDenotations and map to registered annotations read by OrderBy()/LimitOf(). OkInjection is asked about the predicate whose rules are injected; denotations become annotations before the parser rewrites that duplicate rules. Annotations inherited by functor clones are read from state recomputed after every application. Positional annotation arguments are taken in numeric order of their position. A returned name taken out of a local list is judged by what the list is filled with.',
         ref='3/C18'),
     'C19': dict(
         technique='catalogue of guarded raise sites located by exception type + polarity-aware guard dependence; must-call (post-dominance) of validators; call-graph reachability from the entry points; handler discipline on the call paths and at the CLI',
-        text='Error discipline, not detection of every corrupted program: (R1) for each class of invalid program named by the property a raise of the right diagnostic type exists under a guard derived from the relevant condition; (R2) the validators are must-calls of the entry points and every site is reachable from ParseFile / LogicaProgram; (R3) catalogue functions raise only the four diagnostic types, exception_maker builds RuleCompileException, no handler between entry and site swallows a diagnostic, and logica.py / run_in_terminal catch all of them, show the message and exit non-zero. For five validators the must-raise scenario is interpreted abstractly: whenever the core condition holds, every path raises the diagnostic (an added escape such as `if <cond>: continue` is a path that does not). AllVariables() covers select, unifications, constraints and unnestings, and the select exemption of the variable collector is not in force below the top level.',
+        text='Error discipline, not detection of every corrupted program: (R1) for each class of invalid program named by the property a raise of the right diagnostic type exists under a guard derived from the relevant condition; (R2) the validators are must-calls of the entry points and every site is reachable from ParseFile / LogicaProgram; (R3) catalogue functions raise only the four diagnostic types, exception_maker builds RuleCompileException, no handler between entry and site swallows a diagnostic, and logica.py / run_in_terminal catch all of them, show the message and exit non-zero. For five validators the must-raise scenario is interpreted abstractly: whenever the core condition holds, every path raises the diagnostic (an added escape such as `if <cond>: continue` is a path that does not). AllVariables() covers select, unifications, constraints and unnestings, and the select exemption of the variable collector is not in force below the top level. A call, record or list is accepted only when IsWhole(inner text) held on the way to the successful return (an unclosed opener is reported only because nothing parses).',
         ref='3/C19'),
     'C02': dict(
         technique='dominance on the CFG of ExtractRuleStructure; argument provenance at the combine call chain; set-difference shape of the GROUP BY key computation; exhaustiveness of dialect GroupBySpecBy constants; constructor/consumer key-set agreement of aggregation nodes',
-        text='Structural necessary conditions only, not aggregate values or null behaviour: (R1) DisambiguateCombineVariables runs on the private copy before value inlining, select and body extraction; (R2) a combine is translated with the current vocabulary and is_combine=True, the flag and vocabulary are forwarded unchanged, DecorateCombineRule is applied iff is_combine, FROM sub-queries see only the external vocabulary; (R3) GROUP BY keys are exactly select keys minus aggregated keys of distinct rules, in all three dialect modes, and every dialect answers GroupBySpecBy() with a handled mode; (R4) + and ++ map to existing built-ins, every constructor of an aggregation node builds the key set the rewrite consumes, negation is IsNull(combine Min/Max= 1). (R5) the SQLite aggregate UDFs behind ArgMin/ArgMax/Set/List are arrival-order independent, keep the heap discipline of their K-best buffers (max-heap primitives only on the max-heap, buffer heapified before replacement) and never test data values for truthiness. The GROUP BY key list is exactly the select keys in distinct_vars (no further filter); DisambiguateCombineVariables has no exit before the loop over the sub-combines. Combine-local variables are renamed with a number from the execution-level allocator.',
+        text='Structural necessary conditions only, not aggregate values or null behaviour: (R1) DisambiguateCombineVariables runs on the private copy before value inlining, select and body extraction; (R2) a combine is translated with the current vocabulary and is_combine=True, the flag and vocabulary are forwarded unchanged, DecorateCombineRule is applied iff is_combine, FROM sub-queries see only the external vocabulary; (R3) GROUP BY keys are exactly select keys minus aggregated keys of distinct rules, in all three dialect modes, and every dialect answers GroupBySpecBy() with a handled mode; (R4) + and ++ map to existing built-ins, every constructor of an aggregation node builds the key set the rewrite consumes, negation is IsNull(combine Min/Max= 1). (R5) the SQLite aggregate UDFs behind ArgMin/ArgMax/Set/List are arrival-order independent, keep the heap discipline of their K-best buffers (max-heap primitives only on the max-heap, buffer heapified before replacement) and never test data values for truthiness. The GROUP BY key list is exactly the select keys in distinct_vars (no further filter); DisambiguateCombineVariables has no exit before the loop over the sub-combines. Combine-local variables are renamed with a number from the execution-level allocator. Sibling recursive calls of the tree walkers agree on the optional parameters they forward; the dialects of engines with standard aggregate scoping entangle every combine on every path; TranslateRule returns SQL translated for this call (no store keyed without the vocabulary).',
         ref='3/C02'),
     'C04': dict(
         technique='provenance of renamed objects (deep-copy returns, no access to the shared rule index); value-dependence (def-use closure ignoring filters) of the cache key; polarity-aware guards of Make in MakeAll',
-        text='Structural necessary conditions only, not equality with the hand-substituted program: (R1) AllRulesOf / CollectAnnotations return deep copies, CallFunctor renames only those clones, publishes them after renaming and rebuilds the argument maps; (R2) the cache key is built from the functor, and from names and values of exactly the relevant bindings, sorted, and cached_calls is indexed only by it; (R3) an instruction is built only when applicant, its transitive arguments and the argument values are built, lack of progress and arguments the functor does not depend on are FunctorErrors. Selection completeness of MakeAll is evaluated with three-valued conditions; the cache key identifies values by identity-free text. After an application the cached transitive arguments are dropped for every predicate whose cached set mentions the new predicate; CollectAnnotations reads only state UpdateStructure recomputes as a whole.',
+        text='Structural necessary conditions only, not equality with the hand-substituted program: (R1) AllRulesOf / CollectAnnotations return deep copies, CallFunctor renames only those clones, publishes them after renaming and rebuilds the argument maps; (R2) the cache key is built from the functor, and from names and values of exactly the relevant bindings, sorted, and cached_calls is indexed only by it; (R3) an instruction is built only when applicant, its transitive arguments and the argument values are built, lack of progress and arguments the functor does not depend on are FunctorErrors. Selection completeness of MakeAll is evaluated with three-valued conditions; the cache key identifies values by identity-free text. After an application the cached transitive arguments are dropped for every predicate whose cached set mentions the new predicate; CollectAnnotations reads only state UpdateStructure recomputes as a whole. The extraction of the predicates a rule calls walks the whole rule: no key is skipped from BuildDirectArgsOfWalk down.',
         ref='3/C04'),
     'C06': dict(
         technique='clang resolved JSON AST of logica_parse.cpp vs Python ast of parse.py: sequence equality of operator lists and alternative chains, per-function symbol-set equality with stated normalisations, character-class evaluation, rejection-capability equivalence',
-        text='Agreement of every table a parser decision is read from, not equality of parse trees for every string: (R1) the operator precedence list is the same sequence, unary and proposition-level sets agree; (R2) alternatives are tried in the same order in ActuallyParseExpression, ParseProposition, ParseLiteral, the statement dispatch and the rewrite pipeline; (R3) for each of ~60 function pairs the node fields, separators, keywords and literal values agree; (R4) variable / call-name / predicate character classes, the bracket table and scanner state symbols agree; (R6) a function that can reject input in one parser can in the other. The realistic drift of two hand-written ports (an operator, keyword, field or alternative added on one side) is exactly what this catches. (R7) no set iteration order reaches the rule list of the Python parser (the C++ port uses ordered containers).',
+        text='Agreement of every table a parser decision is read from, not equality of parse trees for every string: (R1) the operator precedence list is the same sequence, unary and proposition-level sets agree; (R2) alternatives are tried in the same order in ActuallyParseExpression, ParseProposition, ParseLiteral, the statement dispatch and the rewrite pipeline; (R3) for each of ~60 function pairs the node fields, separators, keywords and literal values agree; (R4) variable / call-name / predicate character classes, the bracket table and scanner state symbols agree; (R6) a function that can reject input in one parser can in the other. The realistic drift of two hand-written ports (an operator, keyword, field or alternative added on one side) is exactly what this catches. (R7) no set iteration order reaches the rule list of the Python parser (the C++ port uses ordered containers). (R8) Json::Escape escapes the quote, the backslash and every character below 0x20 on every way out of the function.',
         ref='3/C06',
         note='Trusted base: clang++ 14 as a front end (-fsyntax-only, nothing is built or run), CPython ast; the name correspondence of the two ports; normalisations listed in rules/c06.py (scanner status protocol, format-string splitting, ParseConjunction inlined in C++, experimental operators informational).'),
     'C07': dict(
         technique='per-aggregate accumulator-kind analysis: reads of the accumulator in finalize must pass through a total order (sorted with an injective key) or an order-insensitive reducer; sortedness of the order-driven compiler loops',
-        text='One behavioural clause decided structurally - aggregate UDF results do not depend on arrival order (List element order, ANY_VALUE and ties of ArgMin/ArgMax excepted): for every class registered with create_aggregate the accumulator kind is derived and finalize may read it only through sorted(injective key)/min/max/sum/len; plus (R2) the order-driven loops named by the property draw from sorted sequences. Invariance of whole-program results under permutation / renaming is NOT decided. (R1 also: heap discipline of the K-best buffers, no truthiness on data values.) (R3) every alias handed out by the allocators is the one tested/numbered and the one recorded. The combine-variable disambiguation reaches every combine (no early exit).',
+        text='One behavioural clause decided structurally - aggregate UDF results do not depend on arrival order (List element order, ANY_VALUE and ties of ArgMin/ArgMax excepted): for every class registered with create_aggregate the accumulator kind is derived and finalize may read it only through sorted(injective key)/min/max/sum/len; plus (R2) the order-driven loops named by the property draw from sorted sequences. Invariance of whole-program results under permutation / renaming is NOT decided. (R1 also: heap discipline of the K-best buffers, no truthiness on data values.) (R3) every alias handed out by the allocators is the one tested/numbered and the one recorded. The combine-variable disambiguation reaches every combine (no early exit). The handlers of the conjunct kinds choose the translation from the conjunct alone (no test reads the structure built from earlier conjuncts).',
         ref='3/C07'),
     'C10': dict(
         technique='abstract interpretation of QL.StrLiteral per dialect to extract the escaping transformer as data, then exhaustive application to all strings of length <= 3 over a 15-character metacharacter alphabet and decoding with an independent lexer per dialect; payload-flow allow-list; template provenance of format receivers; CFG checks of flag handling',
-        text='(R1) For each of the eight dialects the transformation StrLiteral applies (extracted from the code, not executed) yields exactly one well-formed literal of that dialect that decodes to the original string, for all 3616 strings of the alphabet (exhaustive); (R2) raw string characters are read only by the sanitiser or documented non-data sinks, literals and FlagValue results are emitted by StrLiteral; (R3) no dynamic %/format receiver in the emitters is compiled SQL; (R4) user flags override programmatic override defaults, undefined flags are rejected before values are returned, ${flag} expansion is bounded and the only expanded form. The value SQLite returns at run time is not decided. (R5) the scanner and ParseString agree on which quote kinds interpret backslash escapes; (R3 also) a template is applied atomically, never formatted in two stages. The StrLiteral transformation is obtained by abstract interpretation that follows the payload through helper functions and dialect methods (loops over constant character lists unrolled). Nothing in the merge of flag values decides by the truthiness of a value.',
+        text='(R1) For each of the eight dialects the transformation StrLiteral applies (extracted from the code, not executed) yields exactly one well-formed literal of that dialect that decodes to the original string, for all 3616 strings of the alphabet (exhaustive); (R2) raw string characters are read only by the sanitiser or documented non-data sinks, literals and FlagValue results are emitted by StrLiteral; (R3) no dynamic %/format receiver in the emitters is compiled SQL; (R4) user flags override programmatic override defaults, undefined flags are rejected before values are returned, ${flag} expansion is bounded and the only expanded form. The value SQLite returns at run time is not decided. (R5) the scanner and ParseString agree on which quote kinds interpret backslash escapes; (R3 also) a template is applied atomically, never formatted in two stages. The StrLiteral transformation is obtained by abstract interpretation that follows the payload through helper functions and dialect methods (loops over constant character lists unrolled). Nothing in the merge of flag values decides by the truthiness of a value. Escaped literals are decoded by the Python literal reader, not by a Latin-1 *_escape codec.',
         ref='3/C10',
         note='Trusted base: the lexical rules of the eight dialects in sa/sqllex.py (assumption A3); CPython ast; the abstract interpreter sa/absint.py.'),
     'C11': dict(
         technique='structural shape comparison of sibling AST constructors; own statement splitter over the eight dialect library strings for sibling agreement',
-        text='Constructor agreement only, not semantic equivalence in context: (R1) the three combine syntaxes share BuildTreeForCombine and negation builds the same combine shape, P(k) Op= e builds the field logica_value? Op= e builds and marks the rule distinct, F(x) = v appends the field a named argument produces; (R2) `a:` defaults to `a: a`, positional fields keep int keys, A => B is ~(A, ~B); (R3) the `=` and `->` library predicates exist with one common definition in all eight dialect libraries. (R4) every functional call rewritten into a variable gets its own fresh variable and conjunct; (R5) the DNF of a disjunction keeps every alternative (no filtering, no de-duplication). An inclusion is translated as an unnesting on every path except the declared Container(..) form.',
+        text='Constructor agreement only, not semantic equivalence in context: (R1) the three combine syntaxes share BuildTreeForCombine and negation builds the same combine shape, P(k) Op= e builds the field logica_value? Op= e builds and marks the rule distinct, F(x) = v appends the field a named argument produces; (R2) `a:` defaults to `a: a`, positional fields keep int keys, A => B is ~(A, ~B); (R3) the `=` and `->` library predicates exist with one common definition in all eight dialect libraries. (R4) every functional call rewritten into a variable gets its own fresh variable and conjunct; (R5) the DNF of a disjunction keeps every alternative (no filtering, no de-duplication). An inclusion is translated as an unnesting on every path except the declared Container(..) form. The dependency extraction the functional rewrites rely on walks the whole rule.',
         ref='3/C11'),
     'C12': dict(
         technique='finite evaluation of the prefix-uniquification loop guard for paths of 2-4 components; typestate (marker before / result after the recursive parse) on the CFG of ParseImport; guard-dependence of the diagnostic raise sites',
-        text='Mechanism liveness and diagnostics, not equality with the flattened program: (R1) the loop that makes per-file prefixes unique can use every component of the import path and stops at its end; (R2) the in-progress marker is stored before and replaced after the recursive ParseFile, an in-progress file raises, a finished file is not parsed again; (R3) renaming ranges over defined and made predicates (only @ and ++? exempt) and imported names get the imported file\'s prefix; (R4) undefined, unused, overriding imports and missing files raise ParsingException. The prefix loop is located wherever it lives and must run after imports are known; the renaming walker is total over rule parts. Own predicates are prefixed before imported names are resolved (order of the two renaming passes).',
+        text='Mechanism liveness and diagnostics, not equality with the flattened program: (R1) the loop that makes per-file prefixes unique can use every component of the import path and stops at its end; (R2) the in-progress marker is stored before and replaced after the recursive ParseFile, an in-progress file raises, a finished file is not parsed again; (R3) renaming ranges over defined and made predicates (only @ and ++? exempt) and imported names get the imported file\'s prefix; (R4) undefined, unused, overriding imports and missing files raise ParsingException. The prefix loop is located wherever it lives and must run after imports are known; the renaming walker is total over rule parts. Own predicates are prefixed before imported names are resolved (order of the two renaming passes). What is stored for an imported file is the ParseFile result of this very call (a parse made for another program carries another program\'s prefix).',
         ref='3/C12'),
     'C15': dict(
         technique='program-text provenance typing of parse.py (fixpoint from ParseFile through the Split/Strip family) and a who-may-search rule; slice-bound discipline; scanner state table',
@@ -84,15 +84,15 @@ CLAIMED = {
         ref='3/C15'),
     'C16': dict(
         technique='abstract interpretation of reference_algebra.Rank and Unify over the 11 type classes: exhaustive enumeration of all 121 ordered pairs and all paths, compared with a specification matrix derived from the property statement',
-        text='Top-level case analysis, exhaustive: for every ordered pair of type classes Unify is total (no reachable assertion), gives the same outcome with roles swapped, reports a clash exactly when the classes have no common instance (conditional for lists on elements and for closed records on field sets), changes nothing when either side already carries an error, makes Singular ^ Sequential = Str and links both references on success; (R2) record merging keeps the union of fields; (R3) chains are compressed before the identity test. Laws on nested terms (idempotence after repetition, order independence for triples) need evaluation on terms and are NOT decided. Only Unify, UnifyFriendlyRecords, CloseRecord and the constructor write `.target`, each at the end of the chain. The relation that decides Closed x Closed is symmetric in the two field sets. Two unified lists both receive the unified element references.',
+        text='Top-level case analysis, exhaustive: for every ordered pair of type classes Unify is total (no reachable assertion), gives the same outcome with roles swapped, reports a clash exactly when the classes have no common instance (conditional for lists on elements and for closed records on field sets), changes nothing when either side already carries an error, makes Singular ^ Sequential = Str and links both references on success; (R2) record merging keeps the union of fields; (R3) chains are compressed before the identity test. Laws on nested terms (idempotence after repetition, order independence for triples) need evaluation on terms and are NOT decided. Only Unify, UnifyFriendlyRecords, CloseRecord and the constructor write `.target`, each at the end of the chain. The relation that decides Closed x Closed is symmetric in the two field sets. Two unified lists both receive the unified element references. TypeStructureCopier never hands out the object it was given unless it is immutable (each use of a signature unifies against a fresh instance).',
         ref='3/C16'),
     'C17': dict(
         technique='dominance on the CFG of TranslateTableAttachedToFile; abstract interpretation with string skeletons over engine x overwrite scenarios of the exported statement text',
-        text='Statement construction only, not table contents after sequences of runs: (R1) the already-defined test precedes construction, the table is registered before its body is compiled, the export statement is appended after the recursive compilation; (R2) on every path and engine, with overwrite the exported text drops or replaces exactly the table it creates (or registers the ClickHouse drop action), without overwrite nothing is dropped; (R3) FormattedPredicateSql compiles the requested predicate directly and never through TranslateTable. (R4) OkInjection is false whenever Ground(p) is present and every InjectStructure is guarded by OkInjection of the predicate being injected at the time it is injected. Inside the loop over the requested predicates no container is both grown and consulted.',
+        text='Statement construction only, not table contents after sequences of runs: (R1) the already-defined test precedes construction, the table is registered before its body is compiled, the export statement is appended after the recursive compilation; (R2) on every path and engine, with overwrite the exported text drops or replaces exactly the table it creates (or registers the ClickHouse drop action), without overwrite nothing is dropped; (R3) FormattedPredicateSql compiles the requested predicate directly and never through TranslateTable. (R4) OkInjection is false whenever Ground(p) is present and every InjectStructure is guarded by OkInjection of the predicate being injected at the time it is injected. Inside the loop over the requested predicates no container is both grown and consulted. The pieces of the execution object the runners execute on their own (preamble, main_predicate_sql, table_to_export_map) are stored with their flags substituted on every path to the return.',
         ref='3/C17'),
     'C20': dict(
         technique='tokenisation of the effective SQLite templates and library SqlExpr templates against the literal create_function / create_aggregate registrations and SQLite core function list; placeholder/field agreement; accumulator analysis shared with C07',
-        text='Writer/reader agreement, not the values the functions return: (R1) every function identifier called by the SQLite templates of the built-ins the property names and by the sqlite_library SqlExpr templates is registered with compatible arity and role or is a SQLite core function; registered aggregates are classes with step/finalize of matching arity; (R2) SqlExpr placeholders are fields of the record passed, in all eight libraries; (R3) aggregate UDFs are arrival-order independent; (R4) SQLite templates format for every admissible argument count. A QL instance works on a private copy of the template tables (no history dependence between engines). Scalar UDFs do not decide by the truthiness of data values either.',
+        text='Writer/reader agreement, not the values the functions return: (R1) every function identifier called by the SQLite templates of the built-ins the property names and by the sqlite_library SqlExpr templates is registered with compatible arity and role or is a SQLite core function; registered aggregates are classes with step/finalize of matching arity; (R2) SqlExpr placeholders are fields of the record passed, in all eight libraries; (R3) aggregate UDFs are arrival-order independent; (R4) SQLite templates format for every admissible argument count. A QL instance works on a private copy of the template tables (no history dependence between engines). Scalar UDFs do not decide by the truthiness of data values either. SqLiteDialect.DecorateCombineRule entangles on every path.',
         ref='3/C20'),
 }
 
